@@ -40,6 +40,8 @@ func main() {
 		// reseek of the iterator and its next call (a counter copy narrower than the tree's would
 		// make the iterator believe nothing changed).
 		r.Cases("wrap", r.Scale(48, 400), runtime.GOMAXPROCS(0), func(c *vkit.Case) { dispatch(c, c.Index%8) })
+		r.Cases("twin", r.Scale(3000, 30000), 1, func(c *vkit.Case) { twin(c) })
+		r.Floor("twin rounds (another collection of the same type built between two Next calls)", r.Table("twin", "rounds"), 2000)
 		if r.Thorough() || os.Getenv("VERIF_WRAP32_TOTAL") != "" {
 			r.Cases("wrap32", 6, 6, func(c *vkit.Case) { wrap32(c) })
 			r.Floor("wrap32 trials", r.Table("mutations", "exactly 2^32 modifications between two calls of one iterator"), 6)
